@@ -94,7 +94,7 @@ fn judge(sum: &mut Summary, level: &str, case: &Value, verdict: &str, model: u64
             let (ix, t, n) = (case["index"].as_u64().unwrap(), case["total"].as_u64().unwrap(), case["n"].as_u64().unwrap());
             cls["clause"] = json!(if ix >= t { "index>=total" } else if t != n { "total!=count" } else { "position" });
         }
-        sum.violation("C13", json!({"class": cls, "case": case, "level": level, "observed": obs.s(), "panic": panic,
+        crate::util::violation(sum, "C13", json!({"class": cls, "case": case, "level": level, "observed": obs.s(), "panic": panic,
             "why": format!("{level}: property demands {verdict}, real code: {} {panic}", obs.s())}));
     } else if (model == 1) != (obs == Obs::Accept) {
         sum.drift("C13", json!({"level": level, "case": case, "observed": obs.s(), "panic": panic, "model": model}));
